@@ -67,6 +67,23 @@ def step (st : St) (t : List String) : St × String :=
     | some (n :: owned) =>
       if owned.length = n then let st' := resetRound st owned; (st', dump st') else (st, "bad-op")
     | _ => (st, "bad-op")
+  | "announceat" :: rest =>
+    match nats rest with
+    | some (h :: r :: ts :: vid :: b :: rts :: cft :: n :: txs) =>
+      if txs.length = n && decide (ts < cft + roundGap) then
+        let st' := announceAt roundGap st { hash := h, round := r, ts := ts, txs := txs } vid b rts cft
+        (st', dump st')
+      else (st, "bad-op")
+    | _ => (st, "bad-op")
+  | "selfsanity" :: rest =>
+    match nats rest with
+    | some (n :: txs) =>
+      if txs.length = n then
+        match sanityFinalizedElsewhere st txs with
+        | some st' => (st', dump st')
+        | none => (st, "bad-op")
+      else (st, "bad-op")
+    | _ => (st, "bad-op")
   | "announce" :: rest =>
     match nats rest with
     | some (h :: r :: ts :: vid :: b :: n :: txs) =>
